@@ -1,7 +1,6 @@
 package routing
 
 import (
-	"github.com/flowmatters/openwater-core/data"
 	"github.com/flowmatters/openwater-core/zzverif/vsym"
 )
 
